@@ -726,6 +726,12 @@ def _run_history(case, judge=False):
                                   'through and x.wod diverges from x' % (t, desc, i)))
                 if id(q) not in shallow:
                     for kk, d in q._derivs_.items():
+                        # "... and all its derivatives refuse direct writes as well"
+                        for nm, a in (('values', d._values_), ('mask', d._mask_)):
+                            if d._readonly_ and isinstance(a, np.ndarray) and a.flags.writeable:
+                                fails.append(('flag-array:%s:deriv-%s' % (frozen_at.get(id(q), (0, 0, k))[2] if i < nv else desc, nm),
+                                              'step %d (%s): derivative %s of read-only object #%d is flagged read-only but '
+                                              'its %s array is writeable' % (t, desc, kk, i, nm)))
                         if not d._readonly_:
                             fails.append(('deriv-writable:' + desc, 'step %d (%s): derivative %s of read-only object #%d is not read-only'
                                           % (t, desc, kk, i)))
@@ -1136,6 +1142,49 @@ def gen_cases(rng, tier):
             for aim in aims:
                 cases.append({'hist': list(pops) + [{'op': 'wod', 'v': 0}] + route + aim + [{'op': 'wod', 'v': 0}],
                               'kind': 'held-wod:' + pname})
+    # 2c. pickle round trips: every mask kind x with / without derivatives x every route to read-only, then the flags of
+    #     every array of the result and of its derivatives are looked at, and each of them is written through directly
+    PP = []
+    for cls, shape in (('Scalar', [2, 3]), ('Vector3', [2]), ('Scalar', [])):
+        for mask in (('F', 'T', 'A') if shape else ('F', 'T')):
+            for nd in (0, 1, 2):
+                ops = [{'op': 'mk', 'cls': cls, 'shape': shape, 'mask': mask}]
+                for j in range(nd):
+                    ops.append({'op': 'mk', 'cls': cls, 'shape': shape, 'mask': mask if j == 0 else 'F'})
+                    ops.append({'op': 'insd', 'v': 0, 'k': j, 'd': j + 1, 'ov': 'default'})
+                PP.append(('%s%s%s%d' % (cls, shape, mask, nd), ops))
+    for pname, pops in PP:
+        R = Real()
+        for op in pops:
+            R.run(op)
+        q0 = R.vars[0]
+        nv0 = len(R.vars)
+        routes = [('asro', [{'op': 'asro', 'v': 0, 'rec': 'default'}], 0),
+                  ('asroF', [{'op': 'asro', 'v': 0, 'rec': False}], 0),
+                  ('bcast-src', [{'op': 'derive', 'v': 0, 'how': 'bcast', 'rec': True}], 0),
+                  ('bcast-res', [{'op': 'derive', 'v': 0, 'how': 'bcast', 'rec': True}], nv0),
+                  ('copyro', [{'op': 'copy', 'v': 0, 'rec': True, 'ro': True}], nv0),
+                  ('writable', [], 0)]
+        for rname, route, src in routes:
+            u = nv0 + (1 if src == nv0 or rname == 'bcast-src' else 0)      # the variable the unpickled object gets
+            hist = list(pops) + route + [{'op': 'pickle', 'v': src}]
+            nu = 0
+            tail = []
+            if isinstance(q0._values_, np.ndarray) and q0._values_.size:
+                tail += [{'op': 'rawref', 'v': u, 'mask': False}, {'op': 'write', 'u': nu, 'pos': [0]}]; nu += 1
+            if isinstance(q0._mask_, np.ndarray) and q0._mask_.size:
+                tail += [{'op': 'rawref', 'v': u, 'mask': True}, {'op': 'write', 'u': nu, 'pos': [0]}]; nu += 1
+            dv = u + 1
+            for kk in sorted(q0._derivs_):
+                tail += [{'op': 'getderiv', 'v': u, 'k': KEYS.index(kk)}]
+                d = q0._derivs_[kk]
+                if isinstance(d._values_, np.ndarray) and d._values_.size:
+                    tail += [{'op': 'rawref', 'v': dv, 'mask': False}, {'op': 'write', 'u': nu, 'pos': [0]}]; nu += 1
+                if isinstance(q0._mask_, np.ndarray) and q0._mask_.size:
+                    tail += [{'op': 'rawref', 'v': dv, 'mask': True}, {'op': 'write', 'u': nu, 'pos': [0]}]; nu += 1
+                tail += [{'op': 'setitem', 'v': dv, 'index': 'i0' if q0._shape_ else 'ell', 'arg': 'number'}]
+                dv += 1
+            cases.append({'hist': hist + tail, 'kind': 'pickle-stream:%s:%s' % (rname, pname)})
     # 3. random histories
     nrand = 6000 if thorough else 500
     dmax = 30 if thorough else 12
